@@ -181,17 +181,38 @@ def gossip_family(w, pid, corrupt, corrupt_what, extra_kinds=(), mc=None, assump
     # recorded DAGs re-fed to bare hashgraph instances with transient store write
     # failures in the commit path (frame-write outage that piles up decided
     # rounds, then one more failure while several rounds are processed in one pass)
+    # real cores mixed with crafted validators whose clocks are skewed or lie
+    lk = [("liar", dict(traces=8, n=0, steps=260)), ("liar5", dict(traces=4, n=5, steps=300))] if q else [("liar%d" % i, dict(traces=8, n=0, steps=350)) for i in range(3)]
+    t6, s6 = drive_all(w, gossip_specs(w, lk), mode="liars")
+    traces, sums = traces + t6, sums + s6
     okinds = [("ordf", dict(traces=4, n=0, steps=90))] if q else \
              [("ordf%d" % i, dict(traces=6, n=0, steps=150, arg="thorough")) for i in range(3)]
     t3, s3 = drive_all(w, gossip_specs(w, okinds), mode="orders")
     traces, sums = traces + t3, sums + s3
     tvs = w.validate_many(traces, par=6 if q else 8)
     violations, known_hits, drift = judge(w, pid, tvs, known)
+    escalated = None
+    if drift and not violations:
+        # The implementation no longer computes what the specification computes
+        # (Conf_* mismatch).  That alone is not a verdict: search harder, with the
+        # schedulers under which views differ most (late arrivals, healing
+        # partitions, silent minorities) and skewed clocks, for a real violation.
+        log("  drift without violation: escalating (more adversarial schedules)")
+        ek = [("escL%d" % i, dict(traces=8, n=3 + i % 3, steps=260, sched="laggard")) for i in range(3)] + \
+             [("escP%d" % i, dict(traces=8, n=4 + i % 3, steps=260, sched="partition")) for i in range(3)] + \
+             [("escS", dict(traces=8, n=4, steps=260, sched="silent")), ("escM", dict(traces=12, n=0, steps=300, sched="mix"))]
+        t4, s4 = drive_all(w, gossip_specs(w, ek))
+        t5, s5 = drive_all(w, gossip_specs(w, [("escLi", dict(traces=8, n=0, steps=300))]), mode="liars")
+        tv2 = w.validate_many(t4 + t5, par=8)
+        v2, k2, d2 = judge(w, pid, tv2, known)
+        sums += s4 + s5
+        violations, known_hits, drift = v2, sorted(set(known_hits + k2)), drift + d2
+        escalated = {"extra_traces": sum(s["traces"] for s in s4 + s5), "violations_found": len(v2)}
     st = None
     if not violations:
         seg = first_segment(traces[1], os.path.join(w.dir, "seg.ndjson"))
         st = selftest(w, pid, seg, corrupt, corrupt_what)
-    return conclude(w, pid, sums, violations, known_hits, drift, extra={"selftest": st}, assumptions=assumptions)
+    return conclude(w, pid, sums, violations, known_hits, drift, extra={"selftest": st, "escalation": escalated}, assumptions=assumptions)
 
 
 def _first_block_line(d, node_pred=lambda n: True):
@@ -294,6 +315,67 @@ def plan_C03(w):
                                  "fame tables are compared on the set of famous witnesses and on witnesses decided in both instances (a late witness may stay undecided in one order and be decided not-famous in another; no output depends on it)"])
 
 
+def c06_corrupt(d):
+    if d.get("a") == "LiveCheck":
+        d["o"]["busy"][0] = True
+        return True
+    return False
+
+
+def plan_C06(w):
+    q = Q(w)
+    known = vlib.load_known()
+    run_mc(w, [("hg1", "MC_hg1.cfg", 4, 300)])
+    kinds = [("liveA", dict(traces=14, n=0, steps=110, full=0)), ("liveB", dict(traces=6, n=4, steps=160, full=0))] if q else \
+            [("live%d" % i, dict(traces=21, n=0, steps=220, full=0)) for i in range(4)] + \
+            [("liveN7", dict(traces=6, n=7, steps=300, full=0)), ("liveBd", dict(traces=6, n=4, steps=200, full=0, store="badger", cache=400))]
+    traces, sums = drive_all(w, gossip_specs(w, kinds), mode="live")
+    tvs = w.validate_many(traces, par=6)
+    violations, known_hits, drift = judge(w, "C06", tvs, known)
+    st = None
+    if not violations:
+        # the last segment keeps the file small
+        seg = first_segment(traces[0], os.path.join(w.dir, "seg.ndjson"))
+        st = selftest(w, "C06", seg, c06_corrupt, "a live node reported busy after the fair phase")
+    extra = {"selftest": st, "bound_cycles": 40,
+             "max_cycles_to_idle_observed": max(s.get("extra", {}).get("max_cycles_to_idle", 0) for s in sums),
+             "interpretation": "committed everywhere = every transaction accepted by a live node is in the delivered blocks of every live node, pools empty, no loaded event (payload or first event) pending, no node busy; trailing events without payload stay undetermined by design when the network goes idle"}
+    return conclude(w, "C06", sums, violations, known_hits, drift, extra=extra,
+                    assumptions=["no equivocation; cache sizes above the history (the statement excludes both)",
+                                 "prefixes: random / laggard / partition / silent / ring schedulers, truncated syncs, responses that lost an event; then < n/3 validators silent; fair phase with or without truncation"])
+
+
+def c07_corrupt(d):
+    if d.get("a") == "Offer" and not d["x"]["admissible"] and not d["o"]["accepted"]:
+        d["o"]["accepted"] = True
+        return True
+    return False
+
+
+def plan_C07(w):
+    q = Q(w)
+    known = vlib.load_known()
+    run_mc(w, [("hg1", "MC_hg1.cfg", 4, 300), ("hg2q", "MC_hg2q.cfg", 8, 600)])
+    kinds = [("admA", dict(traces=4, n=0, steps=170, arg="all")), ("admB", dict(traces=3, n=4, steps=200))] if q else \
+            [("adm%d" % i, dict(traces=6, n=0, steps=300, arg="all" if i % 2 == 0 else "")) for i in range(6)]
+    traces, sums = drive_all(w, gossip_specs(w, kinds), mode="admit")
+    g = [("gsp", dict(traces=3 if q else 10, n=0, steps=110 if q else 220, sched="mix"))]
+    t2, s2 = drive_all(w, gossip_specs(w, g))
+    tvs = w.validate_many(traces + t2, par=6)
+    violations, known_hits, drift = judge(w, "C07", tvs, known)
+    st = None
+    if not violations:
+        st = selftest(w, "C07", first_segment(traces[0], os.path.join(w.dir, "seg.ndjson")), c07_corrupt,
+                      "a rejected inadmissible offer reported as accepted")
+    tot = {k: sum(s.get("extra", {}).get(k, 0) for s in sums) for k in ("offers", "valid_accepted", "rejected", "tamperings")}
+    if tot["valid_accepted"] < 3:
+        raise Infra("vacuous run: valid events were not accepted (%s)" % tot)
+    extra = {"selftest": st, "offers": tot,
+             "tamperings": "signature flipped / by another validator / 10 malformed encodings; payload or timestamp changed without re-signing; index skipped, far, duplicate, zero, negative, minimal; self-parent older / older with matching index (equivocation) / empty / unknown / foreign event; other-parent unknown or garbage; foreign creator, other validator as creator; internal transactions not signed by the peer they concern; re-signed equivocation at the last height; each through InsertEvent (full event) and through the wire form"}
+    return conclude(w, "C07", sums + s2, violations, known_hits, drift, extra=extra, min_blocks=0,
+                    assumptions=["admission facts are computed by the driver with its own ECDSA/SHA-256 and its own record of the target's view"])
+
+
 def c10_corrupt(d):
     # a node reports a validator-set entry that the blocks do not justify
     if d.get("a") == "Sync" and len(d["o"].get("ps", [])) >= 2:
@@ -345,8 +427,9 @@ def plan_C18(w):
         raise Infra("MedianLemma did not complete: %s" % r.get("raw_tail"))
     log("  mc median lemma: %s (n,k,f) cases, every timestamp assignment each" % r.get("distinct"))
     run_mc(w, [("hg1", "MC_hg1.cfg", 4, 300)])
-    kinds = [("liarsA", dict(traces=4 if q else 16, n=0, steps=220 if q else 350)),
-             ("liarsB", dict(traces=2 if q else 8, n=7, steps=300 if q else 450))]
+    kinds = [("liarsA", dict(traces=8 if q else 24, n=0, steps=260 if q else 400)),
+             ("liarsB", dict(traces=2 if q else 8, n=7, steps=300 if q else 450)),
+             ("liarsC", dict(traces=4 if q else 12, n=5, steps=300 if q else 450))]
     traces, sums = drive_all(w, gossip_specs(w, kinds), mode="liars")
     g = [("gsp", dict(traces=3 if q else 12, n=0, steps=120 if q else 250, sched="mix"))]
     t2, s2 = drive_all(w, gossip_specs(w, g))
@@ -392,6 +475,8 @@ def plan_C19(w):
 
 
 PLANS = {
+    "C06": plan_C06,
+    "C07": plan_C07,
     "C10": plan_C10,
     "C05": plan_C05,
     "C03": plan_C03,
